@@ -51,7 +51,9 @@ def main():
             out["error"] = "patch does not apply: " + o[-500:]
         else:
             if any(l.startswith("+++ ") and l.strip().endswith(".rs") for l in open(patch)):
-                out["note"] = "rust change: the check rebuilds the crate"
+                out["note"] = "rust change: the check rebuilds the crate (cargo cache copied into the worktree to avoid a cold build)"
+                if not inplace:
+                    sh(f"cp -r /repo/target {wt}/target")
             rc1, o1 = sh(["/venv/bin/python", os.path.join(d, "demo.py"), target], env=dict(env, PYTHONPATH=target), cwd=home)
             out["demo_changed_rc"] = rc1
             out["demo_changed_tail"] = o1[-400:]
@@ -67,6 +69,10 @@ def main():
             out["violation_lines"] = vl
             out["detected"] = bool(vl) and rc2 == 1
             out["detected_with_input"] = any("no-failing-input-found" not in l for l in vl)
+            if "note" in out:   # rust patch: the .so in the worktree is only rebuilt by the check; re-run the demo now
+                rc1, o1 = sh(["/venv/bin/python", os.path.join(d, "demo.py"), target], env=dict(env, PYTHONPATH=target), cwd=home)
+                out["demo_changed_rc"] = rc1
+                out["demo_changed_tail"] = o1[-400:]
             for l in vl[:1]:
                 rp = l.split("replay=")[1].split()[0]
                 try:
